@@ -773,10 +773,12 @@ host_write_d2f	(SF_PRIVATE *psf, const double *ptr, sf_count_t len)
 static sf_count_t
 replace_read_f2s	(SF_PRIVATE *psf, short *ptr, sf_count_t len)
 {	BUF_UNION	ubuf ;
+	void		(*convert) (const float *, int, short *, float) ;
 	int			bufferlen, readcount ;
 	sf_count_t	total = 0 ;
 	float		scale ;
 
+	convert = (psf->add_clipping) ? f2s_clip_array : f2s_array ;
 	bufferlen = ARRAY_LEN (ubuf.fbuf) ;
 	scale = (psf->float_int_mult == 0) ? 1.0 : 0x7FFF / psf->float_max ;
 
@@ -790,7 +792,7 @@ replace_read_f2s	(SF_PRIVATE *psf, short *ptr, sf_count_t len)
 
 		bf2f_array (ubuf.fbuf, bufferlen) ;
 
-		f2s_array (ubuf.fbuf, readcount, ptr + total, scale) ;
+		convert (ubuf.fbuf, readcount, ptr + total, scale) ;
 		total += readcount ;
 		if (readcount < bufferlen)
 			break ;
@@ -803,10 +805,12 @@ replace_read_f2s	(SF_PRIVATE *psf, short *ptr, sf_count_t len)
 static sf_count_t
 replace_read_f2i	(SF_PRIVATE *psf, int *ptr, sf_count_t len)
 {	BUF_UNION	ubuf ;
+	void		(*convert) (const float *, int, int *, float) ;
 	int			bufferlen, readcount ;
 	sf_count_t	total = 0 ;
 	float		scale ;
 
+	convert = (psf->add_clipping) ? f2i_clip_array : f2i_array ;
 	bufferlen = ARRAY_LEN (ubuf.fbuf) ;
 	scale = (psf->float_int_mult == 0) ? 1.0 : 2147483648.0f / psf->float_max ;
 
@@ -820,7 +824,7 @@ replace_read_f2i	(SF_PRIVATE *psf, int *ptr, sf_count_t len)
 
 		bf2f_array (ubuf.fbuf, bufferlen) ;
 
-		f2i_array (ubuf.fbuf, readcount, ptr + total, scale) ;
+		convert (ubuf.fbuf, readcount, ptr + total, scale) ;
 		total += readcount ;
 		if (readcount < bufferlen)
 			break ;
